@@ -163,6 +163,10 @@ func runC17(c *core.Ctx) core.Meta {
 		}
 	}
 
+	{
+		stp := c.Rule("R17.12", "the component keeps ticking while any of its steps made progress: where a function with a bool result collects its answer in a loop (over requests per cycle, banks, ports), the value carried around the loop is derived from itself on the back edge (p = step() || p). A plain assignment keeps only the last iteration's answer; the component reports no progress and is not ticked again although an earlier iteration left work to continue", 1)
+		checkProgressAccumulated(c, stp, "R17.12", p, "The component stops ticking with work pending; requests already accepted are never completed")
+	}
 	// R17.11 a delayed request expires even when the pipeline is busy at the cycle of expiry
 	st11 := c.Rule("R17.11", "the row-miss delay of a request ends: a countdown that the component decrements on every tick whatever its value (delayedItem.cyclesLeft) is tested for expiry with an ordering comparison, not with == 0 - the item that finds the bank's pipeline busy in the cycle its counter reaches 0 is kept, goes to -1 and would never be released; the request gets no response and every later request of the bank waits behind it", 1)
 	checkCountdownExpiry(c, st11, "R17.11", p, "the request never enters the bank's pipeline, is never answered, and every later request of that bank queues behind it")
